@@ -6,6 +6,7 @@ import ast
 
 from .. import cfg as cfgmod
 from ..core import AnalysisError, U, body_walk, call_name, last_attr, try_const
+from ..bytelayout import int_weights, layout
 from ..linear import Lin, lin
 from ..selftest import M, T
 
@@ -58,6 +59,12 @@ def parse_frame_reader(repo, rep, qual, rule="C05.R1"):
     # length decode
     length_var = None
     for n in loop.body:
+        if isinstance(n, ast.Assign) and int_weights(n.value, None, {hname: hsize if isinstance(hsize, int) else 4}) is not None \
+                and not (isinstance(n.value, ast.Subscript) and isinstance(n.value.value, ast.Call) and last_attr(n.value.value.func) == "unpack"):
+            length_var = U(n.targets[0])
+            info["len_node"] = n
+            info["weights"] = int_weights(n.value, None, {hname: hsize if isinstance(hsize, int) else 4})
+            info["hname"] = hname
         if isinstance(n, ast.Assign) and isinstance(n.value, ast.Subscript) and isinstance(n.value.value, ast.Call) and last_attr(n.value.value.func) == "unpack":
             call = n.value.value
             fmt = try_const(call.args[0])
@@ -79,6 +86,8 @@ def parse_frame_reader(repo, rep, qual, rule="C05.R1"):
             info["len_index"] = try_const(n.value.slice)
             length_var = U(n.targets[0])
             info["len_node"] = n
+            info["weights"] = int_weights(n.value, None, {hname: hsize if isinstance(hsize, int) else 4})
+            info["hname"] = hname
     info["length_var"] = length_var
     # chunk slice and advance
     for n in loop.body:
@@ -91,29 +100,101 @@ def parse_frame_reader(repo, rep, qual, rule="C05.R1"):
     return info
 
 
+
+def chunker_facts(tb, env):
+    """Recognise the chunking of the uncompressed stream in ``to_buffer``.
+
+    Shapes: ``while x: emit(x[:N]); x = x[N:]`` and a loop/comprehension over
+    ``range(0, len(x), N)`` emitting ``x[o : o + N]``."""
+    out = {"emit": None, "advance": None, "covers": False, "node": tb, "shape": "?", "why": "", "ordered": False}
+    loops = [n for n in body_walk(tb) if isinstance(n, ast.While)]
+    if loops:
+        loop = loops[0]
+        var = U(loop.test)
+        emit = adv = None
+        for n in ast.walk(loop):
+            if isinstance(n, ast.Subscript) and U(n.value) == var and isinstance(n.slice, ast.Slice):
+                if n.slice.lower is None and n.slice.upper is not None:
+                    emit = (try_const(n.slice.upper, env), n)
+                if n.slice.lower is not None and n.slice.upper is None:
+                    adv = (try_const(n.slice.lower, env), n)
+        reassigned = adv is not None and any(isinstance(n, ast.Assign) and U(n.targets[0]) == var and n.value is adv[1] for n in loop.body)
+        out.update(emit=emit and emit[0], advance=adv and adv[0], covers=bool(reassigned), node=loop, shape="while-loop",
+                   ordered=any(isinstance(n, ast.Call) and last_attr(n.func) == "append" and "compress" in U(n) for n in ast.walk(loop)))
+        if not reassigned:
+            out["why"] = "the remainder is not assigned back to the loop variable"
+        return out
+    # range-based shapes
+    for n in body_walk(tb):
+        gens = []
+        if isinstance(n, (ast.ListComp, ast.GeneratorExp)):
+            gens = [(g.target, g.iter, n.elt) for g in n.generators]
+        elif isinstance(n, ast.For):
+            gens = [(n.target, n.iter, n)]
+        for tgt, it, body in gens:
+            if isinstance(it, ast.Call) and call_name(it) == "range" and isinstance(tgt, ast.Name):
+                a = it.args
+                start = try_const(a[0], env) if len(a) >= 2 else 0
+                stop = a[1] if len(a) >= 2 else a[0]
+                step = try_const(a[2], env) if len(a) == 3 else 1
+                for sub in ast.walk(body):
+                    if isinstance(sub, ast.Subscript) and isinstance(sub.slice, ast.Slice) and sub.slice.lower is not None and sub.slice.upper is not None \
+                            and U(sub.slice.lower) == tgt.id:
+                        hi = lin(sub.slice.upper, env)
+                        lo = lin(sub.slice.lower, env)
+                        width = (hi - lo) if hi is not None and lo is not None else None
+                        w = width.c if width is not None and width.is_const() else None
+                        x = U(sub.value)
+                        covers = start == 0 and U(stop).replace(" ", "") == f"len({x})"
+                        out.update(emit=w, advance=step, covers=covers, node=n, shape="range-loop", ordered=True)
+                        if not covers:
+                            out["why"] = (f"offsets run over range({start}, {U(stop)}, {step}) instead of range(0, len({x}), {step}): "
+                                          "the tail of the stream is not emitted for some lengths")
+                        return out
+    raise AnalysisError("IWACompressedChunk.to_buffer: chunking of the stream not recognised")
+
+
 def run(repo, rep, tier):
     # ---------------- writer
     tb = repo.func("iwafile.py", "IWACompressedChunk.to_buffer")
     w = {}
-    # frame expression: marker + pack("<I", len(payload))[:3] + payload
+    # frame expression: <4 header bytes> + payload, read through the abstract byte layout
     frame = None
+    chains = []
     for n in ast.walk(tb):
-        if isinstance(n, ast.BinOp) and isinstance(n.op, ast.Add) and isinstance(n.left, ast.BinOp) and isinstance(n.left.op, ast.Add):
-            if isinstance(try_const(n.left.left), bytes):
-                frame = n
+        if isinstance(n, ast.BinOp) and isinstance(n.op, ast.Add) and not (isinstance(getattr(n, "_parent", None), ast.BinOp) and isinstance(n._parent.op, ast.Add)):
+            ops = []
+            def flat(e):
+                if isinstance(e, ast.BinOp) and isinstance(e.op, ast.Add):
+                    flat(e.left)
+                    flat(e.right)
+                else:
+                    ops.append(e)
+            flat(n)
+            chains.append((n, ops))
+    hdr_layout = None
+    payload = None
+    for n, ops in chains:
+        if len(ops) >= 2 and isinstance(ops[-1], ast.Name):
+            lay = []
+            for o in ops[:-1]:
+                l = layout(o, repo.consts)
+                if l is None:
+                    lay = None
+                    break
+                lay += l
+            if lay is not None:
+                frame, hdr_layout, payload = n, lay, ops[-1]
     if frame is None:
-        raise AnalysisError("IWACompressedChunk.to_buffer: frame expression `marker + length + payload` not found")
-    marker = try_const(frame.left.left)
-    lenexpr = frame.left.right
-    payload = frame.right
-    w["marker"] = marker
-    ok = isinstance(lenexpr, ast.Subscript) and isinstance(lenexpr.slice, ast.Slice) and lenexpr.slice.lower is None and try_const(lenexpr.slice.upper) == 3 \
-        and isinstance(lenexpr.value, ast.Call) and last_attr(lenexpr.value.func) == "pack"
-    wfmt = try_const(lenexpr.value.args[0]) if ok else None
-    warg = U(lenexpr.value.args[1]) if ok else None
-    okw = ok and wfmt == "<I" and warg == f"len({U(payload)})"
-    rep.ob("C05.R1", frame, f"writer frame: marker {marker!r} + pack({wfmt!r}, {warg})[:3] + {U(payload)}", bool(okw) and marker == b"\x00",
-           "" if okw else "length field must be the low 3 bytes of the little-endian payload length", key="C05.R1@writer:frame")
+        raise AnalysisError("IWACompressedChunk.to_buffer: frame expression `<header bytes> + payload` not found")
+    L = f"len({U(payload)})"
+    want = [("const", 0), ("int", L, 0), ("int", L, 1), ("int", L, 2)]
+    marker = bytes([hdr_layout[0][1]]) if hdr_layout and hdr_layout[0][0] == "const" else None
+    okw = hdr_layout == want
+    rep.ob("C05.R1", frame, f"writer frame header bytes {hdr_layout} + {U(payload)}", okw,
+           "" if okw else f"the 4 header bytes must be marker 0x00 followed by the low 3 bytes of {L}, little-endian; found {hdr_layout}: "
+           "payloads whose length does not fit the field written are framed with a wrong length", key="C05.R1@writer:frame")
+    wfmt = "<I"
     # ---------------- readers
     readers = {}
     for qual in ("IWACompressedChunk._decompress_all", "is_iwa_file"):
@@ -125,9 +206,12 @@ def run(repo, rep, tier):
         rep.ob("C05.R1", f, f"{short}: header is 4 bytes", ok, f"header slice is [:{r['header_size']}]", key=f"C05.R1@{short}:header-size")
         ok = r["marker"] is not None and bytes([r["marker"]]) == marker
         rep.ob("C05.R1", f, f"{short}: marker byte {r['marker']} equals the writer's {marker!r}", ok, "", key=f"C05.R1@{short}:marker")
-        ok = r.get("len_fmt") == wfmt == "<I" and r.get("pad_side") == "high-after" and r.get("pad") == b"\x00" and r.get("len_src", "").replace(" ", "") in ("header[1:]", "header[1:4]") and r.get("len_index") == 0
-        rep.ob("C05.R1", r.get("len_node", f), f"{short}: length = unpack('<I', header[1:] + b'\\x00')[0]", ok,
-               "" if ok else f"reader decodes fmt={r.get('len_fmt')}, source={r.get('len_src')}, pad={r.get('pad')!r} on side {r.get('pad_side')}: disagrees with the writer's 3-byte little-endian length",
+        hname = r.get("hname")
+        wts = r.get("weights")
+        want_w = {("src", hname, 1): 1, ("src", hname, 2): 256, ("src", hname, 3): 65536}
+        ok = wts == want_w
+        rep.ob("C05.R1", r.get("len_node", f), f"{short}: length = header[1] + header[2]<<8 + header[3]<<16", ok,
+               "" if ok else f"reader decodes the length with byte weights {wts}: disagrees with the writer's 3-byte little-endian length",
                key=f"C05.R1@{short}:length-decode")
         H = Lin(r["header_size"] or 0)
         L = Lin(0, {r["length_var"]: 1}) if r["length_var"] else None
@@ -156,29 +240,14 @@ def run(repo, rep, tier):
     rep.info("C05.info", f"is_iwa_file short-header guard: {[U(g.test) for g in guard]}")
 
     # ---------------- R2 chunker
-    loops = [n for n in body_walk(tb) if isinstance(n, ast.While)]
-    if not loops:
-        raise AnalysisError("IWACompressedChunk.to_buffer: chunk loop not found")
-    loop = loops[0]
-    var = U(loop.test)
-    emit = None
-    adv = None
-    for n in ast.walk(loop):
-        if isinstance(n, ast.Subscript) and U(n.value) == var and isinstance(n.slice, ast.Slice):
-            if n.slice.lower is None and n.slice.upper is not None:
-                emit = (try_const(n.slice.upper, repo.consts), n)
-            if n.slice.lower is not None and n.slice.upper is None:
-                adv = (try_const(n.slice.lower, repo.consts), n)
-    ok = emit is not None and adv is not None and emit[0] == adv[0]
-    rep.ob("C05.R2", loop, f"chunker emits [:{emit and emit[0]}] and advances [{adv and adv[0]}:]", ok,
-           "" if ok else "emitted slice and advance differ: bytes are dropped or duplicated at every chunk boundary", key="C05.R2@chunker:consume")
-    ok = emit is not None and isinstance(emit[0], int) and 0 < emit[0] <= MAX_CHUNK
-    rep.ob("C05.R2", loop, f"chunk payload <= {MAX_CHUNK} bytes", ok, "" if ok else f"chunk size {emit and emit[0]} exceeds the 64 KiB container rule (and may overflow the 3-byte length)", key="C05.R2@chunker:max")
-    # the advance must be an assignment back to the loop variable, the emission appended in order
-    ok = any(isinstance(n, ast.Assign) and U(n.targets[0]) == var and adv is not None and n.value is adv[1] for n in loop.body)
-    rep.ob("C05.R2", loop, "chunker reassigns the remainder to the loop variable", ok, "", key="C05.R2@chunker:loopvar")
-    ok = any(isinstance(n, ast.Call) and last_attr(n.func) == "append" and "snappy.compress" in U(n) for n in ast.walk(loop))
-    rep.ob("C05.R2", loop, "chunks appended in order, each compressed separately", ok, "", key="C05.R2@chunker:order")
+    ch = chunker_facts(tb, repo.consts)
+    ok = ch["emit"] is not None and ch["emit"] == ch["advance"] and ch["covers"]
+    rep.ob("C05.R2", ch["node"], f"chunker ({ch['shape']}) emits {ch['emit']} bytes per chunk and advances by {ch['advance']}; covers the stream: {ch['covers']}", ok,
+           "" if ok else ch["why"] or "emitted slice and advance differ: bytes are dropped or duplicated at every chunk boundary", key="C05.R2@chunker:consume")
+    ok = isinstance(ch["emit"], int) and 0 < ch["emit"] <= MAX_CHUNK
+    rep.ob("C05.R2", ch["node"], f"chunk payload <= {MAX_CHUNK} bytes", ok, "" if ok else f"chunk size {ch['emit']} exceeds the 64 KiB container rule (and may overflow the 3-byte length)", key="C05.R2@chunker:max")
+    ok = ch["ordered"]
+    rep.ob("C05.R2", ch["node"], "chunks emitted in stream order, each compressed separately", ok, "", key="C05.R2@chunker:order")
     ok = "b''.join([archive.to_buffer() for archive in self.archives])" in U(tb)
     rep.ob("C05.R2", tb, "stream = join of archive buffers in order", ok, "", key="C05.R2@stream:join")
 
@@ -262,7 +331,7 @@ def run(repo, rep, tier):
     pp = repo.func("iwafile.py", "ProtobufPatch.SerializeToString")
     rep.ob("C05.R3", pp, "patch messages are re-serialised from their decoded data", "self.data.Serialize" in U(pp), "", key="C05.R3@patch")
     rep.floor("C05.R1", 10)
-    rep.floor("C05.R2", 5)
+    rep.floor("C05.R2", 4)
     rep.floor("C05.R3", 4)
     rep.floor("C05.R4", 9)
 
